@@ -37,3 +37,57 @@ Proof. unfold canonicalize_url. destruct (canonicalize_split e u dp q sf); refle
 
 
 Definition str_eqb_res (r : res str) (s : str) : bool := match r with Ok x => str_eqb x s | Exc _ => false end.
+
+(* ---------------- C01: what canonicalize_url can raise, and where each component comes from ---------------- *)
+From UV Require Import Py.UrlLibFacts Proofs.NormFacts.
+
+(* the only exceptions: the standard parser's ValueError (urlsplit, or a port that is not a number in range) and
+   the model's unanswered oracle question *)
+Theorem canonicalize_exn e u dp q sf x : canonicalize_url e u dp q sf = Exc x -> url_exn x.
+Proof.
+  unfold canonicalize_url, canonicalize_split.
+  destruct (urlsplit e _) as [sp|y] eqn:Es; cbn [bind]; [|intros [= <-]; eapply urlsplit_scheme_exn; exact Es].
+  destruct (port sp) as [prt|y] eqn:Ep; cbn [bind]; [|intros [= <-]; left; eapply port_exn; exact Ep].
+  destruct (match hostname sp with Some (_ :: _) => _ | z => Ok z end) as [h|y] eqn:Eh; cbn [bind]; [discriminate|].
+  intros [= <-]. right.
+  destruct (hostname sp) as [[|c hh]|]; try discriminate.
+  destruct (decode_punycode_hostname e _) as [d|z] eqn:Ed; cbn [bind] in Eh; [discriminate|].
+  injection Eh as <-. eapply decode_punycode_exn; eassumption.
+Qed.
+
+(* every component of the result is computed from the same component of the parsed (cleaned, protocol-ensured)
+   url: the scheme is kept, the netloc is rebuilt from the unquoted userinfo, the decoded lower-cased host and the
+   port minus the scheme's default, the query keeps its items in order (each unquoted, re-quoted in quoted mode),
+   the fragment is dropped exactly when asked *)
+Theorem canonicalize_components e u dp q sf r :
+  canonicalize_split e u dp q sf = Ok r ->
+  exists sp prt host,
+    urlsplit e (ensure_protocol (clean_url u) dp) = Ok sp /\ port sp = Ok prt /\
+    (match hostname sp with
+     | Some (c :: h) => exists d, decode_punycode_hostname e (c :: h) = Ok d /\ host = Some (lower d)
+     | x => host = x
+     end) /\
+    scheme r = scheme sp /\
+    netloc r = unsplit_netloc (canon_item q safely_unquote_auth_item (username sp))
+                              (canon_item q safely_unquote_auth_item (password sp)) host (canon_port (scheme sp) prt) /\
+    query r = safe_serialize_qsl ((if q then safely_quote_qsl else fun l => l) (safely_unquote_qsl (safe_qsl_iter (query sp)))) /\
+    (sf = true -> fragment r = []) /\
+    (sf = false -> fragment r = match fragment sp with
+                                | [] => []
+                                | f => if q then safely_quote (safely_unquote_fragment f) else safely_unquote_fragment f
+                                end).
+Proof.
+  unfold canonicalize_split.
+  destruct (urlsplit e _) as [sp|] eqn:Es; cbn [bind]; [|discriminate].
+  destruct (port sp) as [prt|] eqn:Ep; cbn [bind]; [|discriminate].
+  destruct (match hostname sp with Some (_ :: _) => _ | z => Ok z end) as [host|] eqn:Eh; cbn [bind]; [|discriminate].
+  intros [= <-]. exists sp, prt, host. cbn [scheme netloc query fragment].
+  repeat split; try reflexivity.
+  - exact Ep.
+  - destruct (hostname sp) as [[|c h]|]; try (injection Eh as <-; reflexivity).
+    destruct (decode_punycode_hostname e (c :: h)) as [d|] eqn:Ed; cbn [bind] in Eh; [|discriminate].
+    injection Eh as <-. exists d. split; reflexivity.
+  - destruct q; reflexivity.
+  - intros ->. reflexivity.
+  - intros ->. destruct (fragment sp); reflexivity.
+Qed.
